@@ -169,7 +169,7 @@ func run(w *core.Worker, c Case) {
 func TestProp(t *testing.T) {
 	r := core.Start(t, "C04")
 	defer r.Finish()
-	r.Rule("cases = operation sequences on bstree.BsTree[int,int] (Upsert with a fresh value per step / Delete / Get) checked against a map model: every return value, and Size + Get of every probe key + the full Traverse sequence after the last step (systematic sweep: every shorter sequence is its own case) or after every step (random sequences); non-trivial = the sequence overwrote a present key or deleted a present key; distinct by hash of (comparator, ops)")
+	r.Rule("cases = operation sequences on bstree.BsTree[int,int] (Upsert with a fresh value per step / Delete / Get) checked against a map model: every return value, and Size + Get of every probe key + the full Traverse sequence after the last step (systematic sweep: every shorter sequence is its own case) or after every step (random sequences); non-trivial = the sequence overwrote a present key or deleted a present key; bst-bulk: 129-5000 keys loaded in sorted/reversed/shuffled order, then three rounds of deleting a fifth of the keys and re-inserting, with Size, the complete Traverse sequence (twice) and 64 random Gets after each phase; distinct by hash of (comparator, ops)")
 
 	L := r.Pick(6, 7)
 	var alpha []Op
@@ -223,4 +223,133 @@ func TestProp(t *testing.T) {
 			emit(Case{Desc: rng.Bool(), Full: true, Ops: ops, Keys: keys})
 		}
 	}, run)
+
+	// large trees: hundreds to thousands of keys (batching / buffering inside Traverse, deep
+	// recursion); Traverse is compared in full after the load and after every block of deletes
+	nBulk := r.Pick(40, 600)
+	core.Monitor(r, "bst-bulk", 0, func(emit func(BulkCase)) {
+		rng := r.Rand("c04-bulk")
+		for i := 0; i < nBulk; i++ {
+			emit(BulkCase{Desc: i%2 == 1, N: []int{129, 130, 257, 600, 1500, 5000}[rng.Intn(6)] + rng.Intn(3), Order: i % 3, Seed: rng.Uint64()})
+		}
+	}, runBulk)
+}
+
+// BulkCase: N keys inserted in sorted (0), reversed (1) or shuffled (2) order, then three rounds of
+// deleting a random fifth of the present keys; full observation after each phase.
+type BulkCase struct {
+	Desc  bool   `json:"desc"`
+	N     int    `json:"n"`
+	Order int    `json:"order"`
+	Seed  uint64 `json:"seed"`
+}
+
+func runBulk(w *core.Worker, c BulkCase) {
+	comp := func(a, b int) bool { return a < b }
+	if c.Desc {
+		comp = func(a, b int) bool { return a > b }
+	}
+	t := bstree.New[int, int](comp)
+	model := map[int]int{}
+	rng := core.NewRand(c.Seed)
+	keys := make([]int, c.N)
+	for i := range keys {
+		keys[i] = i
+	}
+	switch c.Order {
+	case 1:
+		for a, b := 0, c.N-1; a < b; a, b = a+1, b-1 {
+			keys[a], keys[b] = keys[b], keys[a]
+		}
+	case 2:
+		for j := c.N - 1; j > 0; j-- {
+			k := rng.Intn(j + 1)
+			keys[j], keys[k] = keys[k], keys[j]
+		}
+	}
+	check := func(phase string) bool {
+		if got := t.Size(); got != len(model) {
+			w.Violation("bst.size", fmt.Sprintf("bulk %s: Size()=%d, model holds %d keys", phase, got, len(model)))
+			return false
+		}
+		want := make([]int, 0, len(model))
+		for k := range model {
+			want = append(want, k)
+		}
+		sort.Slice(want, func(i, j int) bool { return comp(want[i], want[j]) })
+		for round := 0; round < 2; round++ { // twice: a second traversal must see the same
+			var got []bstree.Item[int, int]
+			overrun := false
+			p := core.Catch(func() {
+				t.Traverse(func(it bstree.Item[int, int]) {
+					got = append(got, it)
+					if len(got) > len(model)+8 {
+						overrun = true
+						panic("verif: traverse overrun")
+					}
+				})
+			})
+			if overrun || p != nil {
+				w.Violation("bst.traverse-overrun", fmt.Sprintf("bulk %s: Traverse delivered more than %d items or panicked (%v)", phase, len(model)+8, p))
+				return false
+			}
+			if len(got) != len(want) {
+				w.Violation("bst.traverse-length", fmt.Sprintf("bulk %s: Traverse visited %d items, %d keys are present", phase, len(got), len(want)))
+				return false
+			}
+			for i, k := range want {
+				if got[i].Key != k || got[i].Val != model[k] {
+					w.Violation("bst.traverse-order", fmt.Sprintf("bulk %s: Traverse position %d is %+v, want key %d value %d (%d keys)", phase, i, got[i], k, model[k], len(want)))
+					return false
+				}
+			}
+		}
+		for j := 0; j < 64; j++ {
+			k := rng.Intn(c.N+2) - 1
+			it, err := t.Get(k)
+			mv, ok := model[k]
+			if ok != (err == nil) || (ok && (it.Key != k || it.Val != mv)) {
+				w.Violation("bst.get-value", fmt.Sprintf("bulk %s: Get(%d)=%+v,%v model=%v,%v", phase, k, it, err, mv, ok))
+				return false
+			}
+		}
+		w.Tick()
+		return true
+	}
+	p := core.Catch(func() {
+		for i, k := range keys {
+			t.Upsert(k, 100+i)
+			model[k] = 100 + i
+		}
+		if !check("after load") {
+			return
+		}
+		for round := 1; round <= 3; round++ {
+			for k := range model {
+				if rng.Chance(1, 5) {
+					if err := t.Delete(k); err != nil {
+						w.Violation("bst.delete-result", fmt.Sprintf("bulk: Delete(%d) of a present key returned %v", k, err))
+						return
+					}
+					delete(model, k)
+				}
+			}
+			for j := 0; j < c.N/10; j++ { // some re-inserts and overwrites
+				k := rng.Intn(c.N)
+				t.Upsert(k, 7000+j)
+				model[k] = 7000 + j
+			}
+			if !check(fmt.Sprintf("after delete round %d", round)) {
+				return
+			}
+		}
+	})
+	if p != nil {
+		w.Violation("bst.panic:bulk", fmt.Sprintf("bulk case panicked: %v", p))
+		return
+	}
+	w.NonTrivial(core.HashString(core.JSON(c)))
+	if w.WantSample() {
+		w.Sample(c)
+	}
 }
